@@ -137,7 +137,7 @@ func (p *drvProxy) submit(id, reqText string) chan struct{} {
 // suiteStream (C05): a lock-step backend that produces chunk k+1 only after the proxy has
 // observed chunk k, through the real ReverseProxy + forwarder + HTTP client of the agent.
 func suiteStream(e *vh.Env) {
-	e.Result.Rule = "lock-step runs through the real agent code (child process) to a driver-played proxy: the backend flushes chunk k+1 only after the proxy has decoded chunk k from the upload; shaped scripts (1-2 byte chunks after more than 4096 wire bytes, 900 tiny chunks in a row) then random; chunk sizes {1, 2, 3, 100, 4095, 4096, 4097, 32768, 300000, 1 MiB, 2 MiB} and random, 1..200 chunks per response; non-trivial = run with at least 3 chunks or a chunk of at least 4096 bytes"
+	e.Result.Rule = "lock-step runs through the real agent code (child process; every fourth run as an HTML stream through an agent with the websocket shim enabled) to a driver-played proxy: the backend flushes chunk k+1 only after the proxy has decoded chunk k from the upload; shaped scripts (1-2 byte chunks after more than 4096 wire bytes, 900 tiny chunks in a row) then random; chunk sizes {1, 2, 3, 100, 4095, 4096, 4097, 32768, 300000, 1 MiB, 2 MiB} and random, 1..200 chunks per response; non-trivial = run with at least 3 chunks or a chunk of at least 4096 bytes"
 	px := newDrvProxy()
 	defer px.srv.Close()
 	var mu sync.Mutex
@@ -151,6 +151,9 @@ func suiteStream(e *vh.Env) {
 		sizes, ch := scripts[id], seen[id]
 		mu.Unlock()
 		fl := w.(http.Flusher)
+		if strings.HasPrefix(id, "h") {
+			w.Header().Set("Content-Type", "text/html; charset=utf-8") // an HTML stream (fragments, no <head> needed)
+		}
 		w.WriteHeader(200)
 		total := 0
 		for k, sz := range sizes {
@@ -191,6 +194,12 @@ func suiteStream(e *vh.Env) {
 	rig := &e2eRig{proxyURL: px.srv.URL + "/"}
 	defer rig.stop()
 	rig.startAgent(strings.TrimPrefix(backend.URL, "http://"))
+	// the same through an agent with the websocket shim on: HTML responses pass one more stage (ShimBody)
+	pxS := newDrvProxy()
+	defer pxS.srv.Close()
+	rigS := &e2eRig{proxyURL: pxS.srv.URL + "/"}
+	defer rigS.stop()
+	rigS.startAgent(strings.TrimPrefix(backend.URL, "http://"), "VERIF_AGENT_SHIM=1", "VERIF_AGENT_SHIM_PATH=shimpath")
 	n := e.N(25, 600)
 	special := []int{1, 2, 100, 4095, 4096, 4097, 32768, 300000, 1 << 20, 2 << 20}
 	var maxLat time.Duration
@@ -231,6 +240,11 @@ func suiteStream(e *vh.Env) {
 			sizes = append(sizes, sz)
 		}
 		id := fmt.Sprintf("s%d-%d", e.Seed, i)
+		px := px
+		if i%4 == 1 {
+			id = "h" + id // HTML through the shim-enabled agent
+			px = pxS
+		}
 		ch := make(chan int, 4096)
 		mu.Lock()
 		scripts[id] = sizes
@@ -283,6 +297,9 @@ func suiteStream(e *vh.Env) {
 	}
 	e.Observe("max_chunk_latency_ms", maxLat.Milliseconds())
 	if c := rig.crashed(); c != "" {
+		e.Fail("C05:process-crashed", c, -1, nil, nil, nil)
+	}
+	if c := rigS.crashed(); c != "" {
 		e.Fail("C05:process-crashed", c, -1, nil, nil, nil)
 	}
 }
